@@ -81,7 +81,19 @@ func genInput(rt *rapid.T) (string, bool) {
 	gen.SparseMetadataIDs(rt, m)
 	x := m.TextNoisy(gen.DrawNoiseWithAliases(rt))
 	rejected := false
-	switch rapid.IntRange(0, 5).Draw(rt, "reject") {
+	switch rapid.IntRange(0, 7).Draw(rt, "reject") {
+	case 6, 7:
+		// two independent faults in different top-level entities (which one the translator meets first depends
+		// on the order in which it walks its maps): an undefined global and an aggregate index beyond the
+		// fields. The input is rejected whichever comes first: an error both times, never an error one time
+		// and a crash of the caller the other
+		bad := rapid.SampledFrom([]string{
+			"  %1 = extractvalue {i32, i8} {i32 1, i8 2}, 5\n",
+			"  %1 = insertvalue {i32} undef, i32 1, 3\n",
+			"  %1 = extractvalue {i32, {i8, i8}} zeroinitializer, 1, 2\n",
+		}).Draw(rt, "badindex")
+		x += "\n@verif.rej = global i32* @verif.no.such.global\ndefine void @verif.badidx() {\n" + bad + "  ret void\n}\n"
+		rejected = true
 	case 0:
 		x += "\n@verif.rej = global i32* @verif.no.such.global\n"
 		rejected = true
